@@ -50,19 +50,22 @@ def iterMode (line : List Char) : Bool :=
     ((("DECODING".toList).isPrefixOf r && (let t := r.drop 8; !t.isEmpty && t.all isWs)) ||
      (("PREFILL".toList).isPrefixOf r && (let t := r.drop 7; !t.isEmpty && t.all isWs)))
 
+def sepOpCat : List Char := ['-', 'o', 'p', 'C', 'a', 't']
+def sepNA : List Char := ['-', 'N', 'A']
+
 /-- `_category_splitter.split(name)`: pieces and separators in order (fuel = length of the input) -/
 def catSplit : Nat → List Char → List Char → List (List Char)
   | 0, cur, _ => [cur.reverse]
   | _ + 1, cur, [] => [cur.reverse]
   | n + 1, cur, s@(c :: cs) =>
-    if ("-opCat".toList).isPrefixOf s then cur.reverse :: "-opCat".toList :: catSplit n [] (s.drop 6)
-    else if s == "-NA".toList then [cur.reverse, "-NA".toList, []]
+    if sepOpCat.isPrefixOf s then cur.reverse :: sepOpCat :: catSplit n [] (s.drop 6)
+    else if s == sepNA then [cur.reverse, sepNA, []]
     else catSplit n (c :: cur) cs
 
 /-- `_handle_category` -/
 def category (parts : List (List Char)) : String :=
   match parts with
-  | _ :: sep :: _ => if sep == "-opCat".toList then String.ofList (parts.getLast?.getD []) else "NotAvailable"
+  | _ :: sep :: _ => if sep == sepOpCat then String.ofList (parts.getLast?.getD []) else "NotAvailable"
   | _ => "NotAvailable"
 
 /-- `int(...)` of a non-empty ASCII digit string -/
